@@ -114,6 +114,15 @@ Proof.
   eexists. split; [reflexivity|]. constructor; simpl; try apply R. reflexivity.
 Qed.
 
+Lemma eq_items_link (p : PC2.pcache) (l : list (K * V)) : dict_eq_items (PC2.ps_store p) l = PC2.pcache_eq p l.
+Proof.
+  unfold PC2.pcache_eq, M2.dict_eq, dict_eq_items.
+  rewrite (Nat.eqb_sym (length l)).
+  destruct (Nat.eqb (length (PC2.ps_store p)) (length l)); simpl; [|reflexivity].
+  induction (PC2.ps_store p) as [|[k0 v0] t IHt]; simpl; [reflexivity|].
+  rewrite IHt. f_equal.
+Qed.
+
 Section Ops.
   Variables (tb : lock_table) (c : config).
   Notation cls := (cf_kind c).
@@ -270,7 +279,8 @@ Section Ops.
     | EqDict l => Some (S2.EqDict l)
     | Len => Some S2.Len
     | Contains k => Some (S2.Contains k)
-    | EqSelf | Copy | Snapshot _ => None
+    | NeDict l => Some (S2.NeDict l)
+    | EqSelf | Copy | Snapshot _ | CopyCopy => None
     end.
 
   Definition conv_out (o : op) (r : res S2.outv) : rv :=
@@ -427,6 +437,10 @@ Section Ops.
     - (* Contains *)
       unfold m_contains, locked. rewrite arun_with_lock, arun_act. unfold sem at 1. cbn beta iota.
       rewrite (sr_store _ _ _ R). simpl arun.
+      eexists. split; [reflexivity|exact R].    - (* NeDict *)
+      unfold m_ne, locked. rewrite arun_with_lock, arun_bind.
+      unfold m_eq_dict, locked. rewrite arun_with_lock, arun_act. unfold sem at 1. cbn beta iota.
+      rewrite (sr_store _ _ _ R). simpl arun. rewrite eq_items_link.
       eexists. split; [reflexivity|exact R].
   Qed.
 End Ops.
